@@ -1,25 +1,17 @@
-import sys, time, json, collections
+import sys, time, json
 sys.path.insert(0, "/verif")
 from vf import runner
 runner.bootstrap()
 from props import c14
-kind, mode, n, seed = sys.argv[1], sys.argv[2], int(sys.argv[3]), int(sys.argv[4])
-t0 = time.time()
-if kind == "fixed":
-    acc = c14.run_job(dict(kind="fixed", mode="int", name="fixed"))
-else:
-    acc = c14.run_job(dict(kind=kind, mode=mode, name="x", n=n, seed=seed))
+gen, kind, mode, n, seed = sys.argv[1], sys.argv[2], sys.argv[3], int(sys.argv[4]), int(sys.argv[5])
+t0=time.time()
+acc = c14.run_job(dict(gen=gen, kind=kind, mode=mode, name="x", n=n, seed=seed))
 print("evals", acc.evals, "nontrivial", len(acc.nontrivial), "time %.1f" % (time.time() - t0))
-b = collections.Counter()
-for k, v in acc._bucket_counts.items():
-    print("BUCKET", v, k)
-seen = set()
+for k, v in acc._bucket_counts.items(): print("BUCKET", v, k)
+seen=set()
 for f in acc.failures:
-    key = (f["clause"], f["kind"], f["where"])
+    key=(f["clause"],f["kind"],f["where"])
     if key in seen: continue
     seen.add(key)
-    print("FAIL", key, f["detail"][:300])
-    print("   case", json.dumps(f["case"])[:1500])
-if "-l" in sys.argv:
-    for k, v in sorted(acc.labels.items()): print("  ", k, v)
-print("excluded", dict(acc.excluded))
+    g = c14.shrink(f, "%s|%s|%s"%key, "quick", 1, budget_s=15) or f
+    print("FAIL", key, g["detail"][:500]); print("   case", json.dumps(g["case"])[:900])
